@@ -77,6 +77,10 @@ def Graph.worker (g : Graph) (w : Nat) : Worker := g.workers.getD w { id := "?",
 /-- Python's `worker.id in node.params["name"]` -/
 def Graph.idIn (g : Graph) (w n : Nat) : Bool := strIn (g.worker w).id (g.node n).name
 
+/-- the worker whose net a copy was parsed for (`node.params["nets"]`): state requests and the states a test produces
+go to THAT worker's pool, whoever acts on the copy (the acting worker `w` for flat nodes, which have no net) -/
+def Graph.netOf (g : Graph) (n w : Nat) : Nat := ((g.node n).owner).getD w
+
 /-! ## dynamic state -/
 
 structure Result where
@@ -394,11 +398,11 @@ def lower (s : String) : String := s.toLower
 def scanStates (g : Graph) (s : State) (n w : Nat) : Bool × List Event :=
   let nd := g.node n
   if nd.sets.isEmpty then (true, []) else
-  let own := storeGet s.store (g.worker w).id
+  let own := storeGet s.store (g.worker (g.netOf n w)).id
   let shared := storeGet s.store "shared"
   let ok := nd.sets.all (fun vs =>
     (nd.scope.contains "own" && own.contains vs) || (nd.scope.contains "shared" && shared.contains vs))
-  (!ok, [Event.door (g.worker w).id "check" nd.sets nd.scope ok])
+  (!ok, [Event.door (g.worker (g.netOf n w)).id "check" nd.sets nd.scope ok])
 
 def unsetModeOf (nd : Node) (vm : String) : String :=
   match nd.unsetMode.find? (·.1 == vm) with | some (_, m) => m | none => "ri"
@@ -433,7 +437,7 @@ def syncStates (g : Graph) (s : State) (n w : Nat) (runVms : Option (List String
   let nd := g.node n
   let acc := syncAcc nd runVms
   if !acc.1 then (s, []) else
-  let wid := (g.worker w).id
+  let wid := (g.worker (g.netOf n w)).id
   if acc.2.1 == "unset" then
     let own := (storeGet s.store wid).filter (fun x => !acc.2.2.1.contains x)
     ({ s with store := storeSet s.store wid own }, [Event.door wid "unset" acc.2.2.1 ["own"] true])
